@@ -8,7 +8,7 @@ impl ReportError {
     #[verifier::external_body]
     pub fn add_note(&mut self, label: &str, name: &str, source: &str, span: &Span) { unimplemented!() }
 }
-pub enum ErrorKind { RenderingError(Box<ReportError>), VxOtherKinds(VxOpaque) }
+pub enum ErrorKind { RenderingError(Box<ReportError>), InvalidArgument { vx: VxOpaque }, VxOtherKinds(VxOpaque) }
 pub struct Error { pub kind: ErrorKind, pub vx_opaque: VxOpaque }
 pub type TeraResult<T> = Result<T, Error>;
 impl Error {
@@ -130,3 +130,40 @@ pub fn vx_take_writer(v: &mut Vec<VxWriter>, i: usize) -> (r: VxWriter)
             forall|j: int| 0 <= j < old(v).len() && j != i ==> final(v)[j] == old(v)[j],
             final(v)[i as int].bytes@ == Seq::<u8>::empty()
 { unimplemented!() }
+
+// ---- filters / tests (C01: a filter result is marked safe iff the filter opted in via is_safe())
+#[verifier::external_body]
+pub struct Kwargs { _p: () }
+#[verifier::external_body]
+pub struct ArcMap { _p: () }
+impl Kwargs {
+    #[verifier::external_body]
+    pub fn new(m: ArcMap) -> Kwargs { unimplemented!() }
+}
+impl Value {
+    pub uninterp spec fn mark_safe_spec(self) -> Value;
+    pub uninterp spec fn of_bool(b: bool) -> Value;
+    #[verifier::external_body]
+    pub fn mark_safe(self) -> (r: Value) ensures r == self.mark_safe_spec() { unimplemented!() }
+    #[verifier::external_body]
+    pub fn into_map_arc(self) -> Option<ArcMap> { unimplemented!() }
+}
+impl vstd::std_specs::convert::FromSpecImpl<bool> for Value {
+    open spec fn obeys_from_spec() -> bool { true }
+    open spec fn from_spec(v: bool) -> Value { Value::of_bool(v) }
+}
+impl From<bool> for Value {
+    #[verifier::external_body]
+    fn from(v: bool) -> Value { unimplemented!() }
+}
+#[verifier::external_body]
+pub struct StoredFilter { _p: () }
+#[verifier::external_body]
+pub struct StoredTest { _p: () }
+#[verifier::external_body]
+pub struct VxCallToken { _p: () }
+impl StoredFilter {
+    pub uninterp spec fn safe_spec(&self) -> bool;
+    #[verifier::external_body]
+    pub fn is_safe(&self) -> (r: bool) ensures r == self.safe_spec() { unimplemented!() }
+}
